@@ -1,12 +1,14 @@
 package checks
 
 import (
+	"context"
 	"encoding/base64"
 	"encoding/binary"
 	"fmt"
 	"strings"
 
 	f_note "github.com/transparency-dev/formats/note"
+	whttp "github.com/transparency-dev/witness/client/http"
 	"github.com/transparency-dev/witness/verifmc/ev"
 	"github.com/transparency-dev/witness/verifmc/uni"
 	"github.com/transparency-dev/witness/verifmc/wh"
@@ -63,6 +65,9 @@ func c01Monitor(run *ev.Run) func(*wh.Step) {
 			run.Report(sig("size-decreased"), fmt.Sprintf("request %q moved the witness from size %d back to %d", s.Req.Label, a.Size, b.Size), s.Replay())
 		case b.Size == a.Size && string(a.Root) != string(b.Root):
 			run.Report(sig("equal-size-different-root"), fmt.Sprintf("request %q replaced the root at size %d: split view cosigned", s.Req.Label, a.Size), s.Replay())
+		case b.Size > a.Size && a.Size > 0 && (a.Branch.Name == "odd" || b.Branch.Name == "odd"):
+			// A root that is the root of no tree is consistent with nothing but itself.
+			run.Report(sig("not-an-extension")+fmt.Sprintf(" proof=%s", proofLabel(s.Req.Label)), fmt.Sprintf("request %q moved the witness from %s@%d to %s@%d although one of the two roots is the root of no tree: split view cosigned", s.Req.Label, a.Branch.Name, a.Size, b.Branch.Name, b.Size), s.Replay())
 		case b.Size > a.Size && !uni.IsPrefix(a.Branch, int(a.Size), b.Branch, int(b.Size)):
 			run.Report(sig("not-an-extension")+fmt.Sprintf(" proof=%s", proofLabel(s.Req.Label)), fmt.Sprintf("request %q moved the witness from %s@%d to %s@%d whose first %d leaves differ: split view cosigned", s.Req.Label, a.Branch.Name, a.Size, b.Branch.Name, b.Size, a.Size), s.Replay())
 		default:
@@ -252,6 +257,16 @@ func c04Monitor(run *ev.Run, logical bool) func(*wh.Step) {
 		got, err := s.Env.W.GetCheckpoint(id)
 		if err != nil || string(got) != string(s.Out.Bytes) {
 			run.Report(sig("read-differs"), fmt.Sprintf("GetCheckpoint directly after accepted %q returned different bytes (err=%v)", s.Req.Label, err), s.Replay())
+		}
+		// ... and so does a read through the witness's HTTP endpoint with the
+		// bundled client (the "latest-checkpoint read" users make).
+		if _, ok := s.Env.X["router"]; !ok {
+			c16Setup(s.Env)
+		}
+		hgot, herr := s.Env.X["client:"].(whttp.Witness).GetLatestCheckpoint(context.Background(), id)
+		run.Add("http_reads_compared", 1)
+		if herr != nil || string(hgot) != string(s.Out.Bytes) {
+			run.Report(sig("http-read-differs"), fmt.Sprintf("a latest-checkpoint read over the HTTP endpoint directly after accepted %q returned different bytes (err=%v, %d bytes for %d)", s.Req.Label, herr, len(hgot), len(s.Out.Bytes)), s.Replay())
 		}
 		if string(s.Out.Bytes) != s.After.ByID[id] {
 			run.Report(sig("stored-differs"), fmt.Sprintf("accepted %q: stored bytes differ from returned bytes", s.Req.Label), s.Replay())
